@@ -21,8 +21,9 @@
       - time is an explicit [now] carried by every operation (milliseconds; Instant arithmetic saturates,
         as N subtraction does).
       - the database is (log, next sequence): an append with expected sequence [Some k] is accepted
-        iff k = next sequence and the oracle bit is set; with [None] (ExpectedVersion::Any, which is
-        what the catch-up path passes) iff the oracle bit is set.
+        iff k = next sequence and the oracle bit is set; with [None] (ExpectedVersion::Any) iff the
+        oracle bit is set. Both paths pass [Some]: a ReplicateWrite carries the coordinator's expectation,
+        a catch-up commit the sequence it has on the node it was copied from (commit 28b51ee).
       - a dropped reply sender (expired / dropped write) is the answer [OExpired]. *)
 From Coq Require Import NArith List Bool.
 Import ListNotations.
@@ -372,14 +373,15 @@ Definition r_tick (now : N) (s : rstate) (permitted : bool) : rstate * list reve
            else (s1, evs)
   end.
 
-(* one commit of a PartitionSyncResponse: rebuilt with Transaction::new, i.e. ExpectedVersion::Any *)
-Record rcommit := mk_commit { c_tx : N; c_more : N; c_ok : bool }.
+(* one commit of a PartitionSyncResponse: rebuilt with Transaction::new and
+   expected_partition_sequence(from_next_version(first.partition_sequence)) *)
+Record rcommit := mk_commit { c_tx : N; c_seq : N; c_more : N; c_ok : bool }.
 
 Fixpoint r_apply_commits (now : N) (s : rstate) (cs : list rcommit) : rstate * bool * list revent :=
   match cs with
   | [] => (s, true, [])
   | c :: t =>
-      let '(s1, r, evs) := r_write_tx now s (c_tx c) (c_more c) (c_ok c) None in
+      let '(s1, r, evs) := r_write_tx now s (c_tx c) (c_more c) (c_ok c) (Some (c_seq c)) in
       match r with
       | WErr _ => (s1, false, evs)
       | WOk _ => let '(s2, b, evs2) := r_apply_commits now s1 t in (s2, b, evs ++ evs2)
@@ -441,9 +443,18 @@ Definition r_drained (s : rstate) : Prop := m_find (r_next s) (r_map s) = None.
 (* the queue took the write (applied it or buffered it) rather than rejecting it *)
 Definition ins_accepted (r : ins_result) : bool :=
   match r with InsReady _ _ | InsBuffered _ _ => true | _ => false end.
-(* a catch-up response none of whose commits the database rejects (an honest coordinator's answer) *)
-Definition sync_clean (o : rop) : Prop :=
-  match o with OpSync _ (Some cs) => forallb c_ok cs = true | _ => True end.
+(* the step is not a catch-up answer that the database aborts half way (an honest coordinator's answer is
+   applied completely: its commits continue the replica's log) *)
+Definition step_clean (s : rstate) (o : rop) : Prop :=
+  match o with
+  | OpSync now (Some cs) => snd (fst (r_apply_commits now (rs_with_catching s false) cs)) = true
+  | _ => True
+  end.
+Fixpoint run_clean (s : rstate) (ops : list rop) : Prop :=
+  match ops with
+  | [] => True
+  | o :: t => step_clean s o /\ run_clean (fst (r_step s o)) t
+  end.
 (* the log is a gap-free run of appends from [start] to [fin] *)
 Fixpoint log_contig (start : N) (log : list logent) (fin : N) : Prop :=
   match log with
